@@ -93,35 +93,70 @@ func TestConfigMapsHammer(t *testing.T) {
 	hammer(t, driver.NewConfigMaps(fake.NewSimpleClientset().CoreV1().ConfigMaps("default")), 8, scale(250))
 }
 
-// the storage layer the actions use (History / Last / Deployed / Create with pruning) over one memory driver
-func TestStorageLayerHammer(t *testing.T) {
-	mem := driver.NewMemory()
+// the storage layer the actions use — EVERY method of storage.Storage: Create with pruning, Update, Delete, Get,
+// History, Last, Deployed, DeployedAll, ListReleases, ListDeployed, ListUninstalled — one Storage per "operation"
+// (as every action.Configuration has its own) over ONE shared driver, on each of the three backends
+func storageHammer(t *testing.T, shared driver.Driver, workers, iters int) {
+	t.Helper()
 	var wg sync.WaitGroup
-	for w := 0; w < 8; w++ {
+	for w := 0; w < workers; w++ {
 		wg.Add(1)
 		go func(w int) {
 			defer wg.Done()
-			s := storage.Init(mem) // one Storage per "operation", shared driver
+			s := storage.Init(shared)
 			s.MaxHistory = 1 + w%4
 			r := rand.New(rand.NewSource(int64(w) + 100))
-			for i, n := 0, scale(1500); i < n; i++ {
+			sum := 0
+			for i := 0; i < iters; i++ {
 				v := 1 + r.Intn(8)
-				switch r.Intn(6) {
-				case 0:
+				switch r.Intn(12) {
+				case 0, 1:
 					_ = s.Create(rel("rel", v, rspb.StatusPendingUpgrade))
-				case 1:
-					_ = s.Update(rel("rel", v, rspb.StatusDeployed))
 				case 2:
-					_, _ = s.History("rel")
+					_ = s.Update(rel("rel", v, []rspb.Status{rspb.StatusDeployed, rspb.StatusSuperseded, rspb.StatusUninstalled, rspb.StatusFailed}[r.Intn(4)]))
 				case 3:
-					_, _ = s.Last("rel")
+					xs, _ := s.History("rel")
+					sum += len(xs)
 				case 4:
-					_, _ = s.Deployed("rel")
+					if x, err := s.Last("rel"); err == nil && x != nil {
+						sum += x.Version
+					}
 				case 5:
-					_, _ = s.Get("rel", v)
+					if x, err := s.Deployed("rel"); err == nil && x != nil && x.Info != nil {
+						sum += len(x.Info.Status)
+					}
+				case 6:
+					if x, err := s.Get("rel", v); err == nil && x != nil {
+						sum += len(x.Manifest)
+					}
+				case 7:
+					xs, _ := s.DeployedAll("rel")
+					sum += len(xs)
+				case 8:
+					_, _ = s.Delete("rel", v)
+				case 9:
+					xs, _ := s.ListReleases()
+					sum += len(xs)
+				case 10:
+					xs, _ := s.ListDeployed()
+					sum += len(xs)
+				case 11:
+					xs, _ := s.ListUninstalled()
+					sum += len(xs)
 				}
 			}
+			_ = sum
 		}(w)
 	}
 	wg.Wait()
+}
+
+func TestStorageLayerHammer(t *testing.T) { storageHammer(t, driver.NewMemory(), 8, scale(1500)) }
+
+func TestStorageLayerSecretsHammer(t *testing.T) {
+	storageHammer(t, driver.NewSecrets(fake.NewSimpleClientset().CoreV1().Secrets("default")), 8, scale(240))
+}
+
+func TestStorageLayerConfigMapsHammer(t *testing.T) {
+	storageHammer(t, driver.NewConfigMaps(fake.NewSimpleClientset().CoreV1().ConfigMaps("default")), 8, scale(240))
 }
